@@ -141,13 +141,14 @@ class SubmitterParams(JadeBaseModel):
         return data
 
 
-_REGEX_WALL_TIME = re.compile(r"(\d+):(\d+):(\d+)")
+_REGEX_WALL_TIME = re.compile(r"(?:(\d+)-)?(\d+):(\d+):(\d+)")
 
 
 def _to_timedelta(wall_time):
     match = _REGEX_WALL_TIME.search(wall_time)
     assert match
-    hours = int(match.group(1))
-    minutes = int(match.group(2))
-    seconds = int(match.group(3))
-    return timedelta(hours=hours, minutes=minutes, seconds=seconds)
+    days = int(match.group(1)) if match.group(1) is not None else 0
+    hours = int(match.group(2))
+    minutes = int(match.group(3))
+    seconds = int(match.group(4))
+    return timedelta(days=days, hours=hours, minutes=minutes, seconds=seconds)
